@@ -21,6 +21,12 @@ pub struct PCase {
     pub norm: u8,
     /// kind for Pattern::new / Atom::new
     pub kind: u8,
+    /// (case, norm) used by the earlier steps of the reparse history (missing: the case's own)
+    #[serde(default)]
+    pub hist_modes: Vec<(u8, u8)>,
+    /// before the final reparse the same text is parsed once with these other settings
+    #[serde(default)]
+    pub repeat: Option<(u8, u8)>,
 }
 
 #[derive(Clone, Debug, PartialEq, Eq)]
@@ -214,7 +220,7 @@ impl Check for C14 {
         "C14"
     }
     fn rule(&self) -> String {
-        "pattern strings of 0-14 chars from a pool in which markers (! ^ ' $), backslash and whitespace of every kind are frequent, mixed with ASCII letters/digits and non-ASCII letters (cased, normalizable, CJK, lower-case-but-folding), 1-3 texts per case (reparse history); a literal text for the escape round-trip; all CaseMatching x Normalization. Oracles: own reference parser of the stated grammar vs Pattern::parse / Atom::parse / Pattern::new / Atom::new (needle text, kind, polarity, ignore-case and normalize flags); parse(escape(t)) is one positive fuzzy atom with needle project(t); reparse sequence == fresh parse. Non-trivial: a text containing a backslash or a marker adjacent to a non-ASCII character (or, for the round trip, a literal with a space/marker/backslash and a non-ASCII char). Distinct by case hash.".into()
+        "pattern strings of 0-14 chars from a pool in which markers (! ^ ' $), backslash and whitespace of every kind are frequent, mixed with ASCII letters/digits and non-ASCII letters (cased, normalizable, CJK, lower-case-but-folding), 1-3 texts per case (reparse history on one Pattern object; in a third of the cases the earlier steps use other CaseMatching/Normalization settings, and in a third the final text is first parsed with other settings); a literal text for the escape round-trip; all CaseMatching x Normalization. Oracles: own reference parser of the stated grammar vs Pattern::parse / Atom::parse / Pattern::new / Atom::new (needle text, kind, polarity, ignore-case and normalize flags); parse(escape(t)) is one positive fuzzy atom with needle project(t); reparse sequence == fresh parse. Non-trivial: a text containing a backslash or a marker adjacent to a non-ASCII character (or, for the round trip, a literal with a space/marker/backslash and a non-ASCII char). Distinct by case hash.".into()
     }
     fn assumptions(&self) -> Vec<String> {
         vec![
@@ -239,7 +245,9 @@ impl Check for C14 {
             }
             v.into_iter().collect::<String>()
         });
-        (proptest::collection::vec(text, 1..=3), literal, 0u8..3, 0u8..2, 0u8..5).prop_map(|(texts, literal, case, norm, kind)| PCase { texts, literal, case, norm, kind }).boxed()
+        let modes = prop_oneof![2 => Just(vec![]), 1 => proptest::collection::vec((0u8..3, 0u8..2), 2)];
+        let repeat = prop_oneof![2 => Just(None), 1 => (0u8..3, 0u8..2).prop_map(Some)];
+        (proptest::collection::vec(text, 1..=3), literal, 0u8..3, 0u8..2, 0u8..5, modes, repeat).prop_map(|(texts, literal, case, norm, kind, hist_modes, repeat)| PCase { texts, literal, case, norm, kind, hist_modes, repeat }).boxed()
     }
     fn run(&self, case: &PCase) -> Outcome {
         let mut out = Outcome::default();
@@ -265,6 +273,9 @@ impl Check for C14 {
         }
         if case.texts.len() > 1 {
             out.label("reparse-history");
+        }
+        if case.repeat.is_some() {
+            out.label("same-text-reparsed-with-other-settings");
         }
         let show = |v: &[RefAtom]| format!("{v:?}");
         let r = guarded(|| {
@@ -308,16 +319,26 @@ impl Check for C14 {
                 fails.push(("atom-new-literal".into(), format!("Atom::new({last:?}, escape_whitespace=false) = {g:?}, expected {e:?}")));
             }
             // (c) reparse history
-            let mut p = Pattern::parse(&case.texts[0], cm, nm);
-            for t in &case.texts[1..] {
-                p.reparse(t, cm, nm);
+            // every step but the last may use other settings; the last step is (last text, cm, nm)
+            let mut steps: Vec<(&str, u8, u8)> = vec![];
+            for (i, t) in case.texts[..case.texts.len() - 1].iter().enumerate() {
+                let (c, n) = case.hist_modes.get(i).copied().unwrap_or((case.case, case.norm));
+                steps.push((t, c, n));
             }
-            if case.texts.len() == 1 {
+            if let Some((c, n)) = case.repeat {
+                steps.push((&last, c, n));
+            }
+            steps.push((&last, case.case, case.norm));
+            let mut p = Pattern::parse(steps[0].0, case_of(steps[0].1), norm_of(steps[0].2));
+            for (t, c, n) in &steps[1..] {
+                p.reparse(t, case_of(*c), norm_of(*n));
+            }
+            if steps.len() == 1 {
                 p.reparse(&last, cm, nm);
             }
             let fresh = Pattern::parse(&last, cm, nm);
             if p.atoms != fresh.atoms {
-                fails.push(("reparse".into(), format!("reparse history {:?} ends in {:?}, fresh parse gives {:?}", case.texts, p.atoms, fresh.atoms)));
+                fails.push(("reparse".into(), format!("reparse history {:?} (text, case, norm) ends in {:?}, fresh parse gives {:?}", steps, p.atoms, fresh.atoms)));
             }
             // (b) escape round-trip
             let t = &case.literal;
@@ -362,5 +383,7 @@ pub fn decode_pcase(data: &[u8]) -> PCase {
     if parts.is_empty() {
         parts.push(literal.iter().collect());
     }
-    PCase { texts: parts, literal: literal.into_iter().collect(), case: flags % 3, norm: (flags >> 2) % 2, kind: (flags >> 3) % 5 }
+    let hist_modes = if flags & 0x40 != 0 { (1..3u8).map(|i| ((flags % 3 + i) % 3, ((flags >> 2) + i) % 2)).collect() } else { vec![] };
+    let repeat = (flags & 0x80 != 0).then_some(((flags % 3 + 1) % 3, ((flags >> 2) + 1) % 2));
+    PCase { texts: parts, literal: literal.into_iter().collect(), case: flags % 3, norm: (flags >> 2) % 2, kind: (flags >> 3) % 5, hist_modes, repeat }
 }
